@@ -1,0 +1,651 @@
+//! Verification facade. Compiled only with `--cfg rzmq_verif`; never part of a normal build.
+//!
+//! Exposes crate-private building blocks (engine config, framers, ready-pipe queue,
+//! load balancer, trie, egress buffer, reconnect arithmetic, wait group) to an external
+//! runtime-monitoring harness, plus seeded schedule points, gates and coverage counters.
+//! Everything here only wraps or reads existing code; it changes no behaviour.
+
+use std::collections::{BTreeMap, VecDeque};
+use std::sync::atomic::{AtomicBool, AtomicU64, AtomicUsize, Ordering};
+use std::sync::Arc;
+use std::time::Duration;
+
+use bytes::{Bytes, BytesMut};
+use parking_lot::Mutex;
+
+use crate::error::ZmqError;
+use crate::message::{FrameBatch, Msg};
+use crate::protocol::zmtp::engine::ZmtpEngine;
+use crate::security::framer::encoder::ZmtpFrameEncoder;
+use crate::security::framer::{ISecureFramer, NullFramer};
+use crate::socket::connection_iface::ISocketConnection;
+use crate::socket::options::ZmtpEngineConfig;
+use crate::socket::patterns::ready_pipe_queue::{ReadyPipeQueue, ReadyPipeSender};
+use crate::socket::patterns::{LoadBalancer, OutgoingMessageOrchestrator, SubscriptionTrie};
+
+// ---------------------------------------------------------------------------------------------
+// Schedule points, gates, counters
+// ---------------------------------------------------------------------------------------------
+
+struct Registry {
+  counts: Mutex<BTreeMap<&'static str, u64>>,
+  gates: Mutex<BTreeMap<&'static str, Arc<Gate>>>,
+  perturb_seed: AtomicU64,
+  perturb_on: AtomicBool,
+  order_log: Mutex<Option<Vec<&'static str>>>,
+}
+
+struct Gate {
+  /// number of arrivals still to be held
+  hold: AtomicUsize,
+  arrived: AtomicUsize,
+  released: AtomicBool,
+  notify: tokio::sync::Notify,
+}
+
+fn reg() -> &'static Registry {
+  static R: std::sync::OnceLock<Registry> = std::sync::OnceLock::new();
+  R.get_or_init(|| Registry {
+    counts: Mutex::new(BTreeMap::new()),
+    gates: Mutex::new(BTreeMap::new()),
+    perturb_seed: AtomicU64::new(0),
+    perturb_on: AtomicBool::new(false),
+    order_log: Mutex::new(None),
+  })
+}
+
+/// Enable seeded perturbation at schedule points (0 disables).
+pub fn set_perturbation(seed: u64) {
+  reg().perturb_seed.store(seed, Ordering::SeqCst);
+  reg().perturb_on.store(seed != 0, Ordering::SeqCst);
+}
+
+/// Start (Some) or stop (None) recording the global order in which points are hit.
+pub fn record_order(on: bool) {
+  *reg().order_log.lock() = if on { Some(Vec::new()) } else { None };
+}
+
+pub fn take_order() -> Vec<&'static str> {
+  reg().order_log.lock().as_mut().map(std::mem::take).unwrap_or_default()
+}
+
+/// Coverage counter: `count("id")` adds one.
+#[inline]
+pub fn count(id: &'static str) {
+  *reg().counts.lock().entry(id).or_insert(0) += 1;
+}
+
+pub fn counters() -> BTreeMap<String, u64> {
+  reg().counts.lock().iter().map(|(k, v)| (k.to_string(), *v)).collect()
+}
+
+pub fn reset_counters() {
+  reg().counts.lock().clear();
+}
+
+fn splitmix(x: &AtomicU64) -> u64 {
+  let mut z = x.fetch_add(0x9E37_79B9_7F4A_7C15, Ordering::Relaxed).wrapping_add(0x9E37_79B9_7F4A_7C15);
+  z = (z ^ (z >> 30)).wrapping_mul(0xBF58_476D_1CE4_E5B9);
+  z = (z ^ (z >> 27)).wrapping_mul(0x94D0_49BB_1331_11EB);
+  z ^ (z >> 31)
+}
+
+fn note(id: &'static str) {
+  count(id);
+  if let Some(v) = reg().order_log.lock().as_mut() {
+    if v.len() < 4096 {
+      v.push(id);
+    }
+  }
+}
+
+/// Synchronous schedule point (between critical sections, never under a lock).
+#[inline]
+pub fn point(id: &'static str) {
+  note(id);
+  if !reg().perturb_on.load(Ordering::Relaxed) {
+    return;
+  }
+  let r = splitmix(&reg().perturb_seed);
+  match r % 8 {
+    0 | 1 | 2 => {}
+    3 | 4 => std::thread::yield_now(),
+    5 => {
+      for _ in 0..((r >> 8) % 200) {
+        std::hint::spin_loop();
+      }
+    }
+    6 => std::thread::sleep(Duration::from_micros((r >> 8) % 50)),
+    _ => std::thread::sleep(Duration::from_micros(50 + (r >> 8) % 300)),
+  }
+}
+
+/// Asynchronous schedule point (only at places that already are, or directly precede, an await).
+pub async fn apoint(id: &'static str) {
+  note(id);
+  let gate = reg().gates.lock().get(id).cloned();
+  if let Some(g) = gate {
+    // Hold this arrival if the gate still has capacity to hold.
+    let mut cur = g.hold.load(Ordering::SeqCst);
+    let mut held = false;
+    while cur > 0 {
+      match g.hold.compare_exchange(cur, cur - 1, Ordering::SeqCst, Ordering::SeqCst) {
+        Ok(_) => {
+          held = true;
+          break;
+        }
+        Err(c) => cur = c,
+      }
+    }
+    if held {
+      g.arrived.fetch_add(1, Ordering::SeqCst);
+      loop {
+        let n = g.notify.notified();
+        tokio::pin!(n);
+        n.as_mut().enable();
+        if g.released.load(Ordering::SeqCst) {
+          break;
+        }
+        n.await;
+      }
+      return;
+    }
+  }
+  if !reg().perturb_on.load(Ordering::Relaxed) {
+    return;
+  }
+  let r = splitmix(&reg().perturb_seed);
+  match r % 8 {
+    0 | 1 | 2 => {}
+    3 | 4 | 5 => {
+      for _ in 0..(1 + (r >> 8) % 3) {
+        tokio::task::yield_now().await;
+      }
+    }
+    6 => std::thread::yield_now(),
+    _ => tokio::time::sleep(Duration::from_micros((r >> 8) % 400)).await,
+  }
+}
+
+/// Arm a gate: the next `hold` tasks arriving at async point `id` park until `release_gate`.
+pub fn arm_gate(id: &'static str, hold: usize) {
+  reg().gates.lock().insert(
+    id,
+    Arc::new(Gate {
+      hold: AtomicUsize::new(hold),
+      arrived: AtomicUsize::new(0),
+      released: AtomicBool::new(false),
+      notify: tokio::sync::Notify::new(),
+    }),
+  );
+}
+
+/// Number of tasks currently (or ever) held at the gate since it was armed.
+pub fn gate_arrived(id: &'static str) -> usize {
+  reg().gates.lock().get(id).map(|g| g.arrived.load(Ordering::SeqCst)).unwrap_or(0)
+}
+
+pub fn release_gate(id: &'static str) {
+  if let Some(g) = reg().gates.lock().remove(id) {
+    g.released.store(true, Ordering::SeqCst);
+    g.hold.store(0, Ordering::SeqCst);
+    g.notify.notify_waiters();
+  }
+}
+
+// ---------------------------------------------------------------------------------------------
+// Engine configuration + construction
+// ---------------------------------------------------------------------------------------------
+
+/// Builder around the crate-private `ZmtpEngineConfig`.
+#[derive(Clone)]
+pub struct EngineCfg(pub(crate) ZmtpEngineConfig);
+
+impl EngineCfg {
+  pub fn new(socket_type_name: &str) -> Self {
+    let mut c = ZmtpEngineConfig::default();
+    c.socket_type_name = socket_type_name.to_string();
+    EngineCfg(c)
+  }
+  pub fn routing_id(mut self, id: Option<&[u8]>) -> Self {
+    self.0.routing_id = id.map(|b| crate::Blob::from(b.to_vec()));
+    self
+  }
+  pub fn allow_zmtp2(mut self, v: bool) -> Self {
+    self.0.allow_zmtp2 = v;
+    self
+  }
+  pub fn heartbeat(mut self, ivl: Option<Duration>, timeout: Option<Duration>) -> Self {
+    self.0.heartbeat_ivl = ivl;
+    self.0.heartbeat_timeout = timeout;
+    self
+  }
+  pub fn max_msg_size(mut self, v: i64) -> Self {
+    self.0.max_msg_size = v;
+    self
+  }
+  pub fn sndbatch(mut self, count: usize, bytes: usize) -> Self {
+    self.0.sndbatch_count = count;
+    self.0.sndbatch_bytes = bytes;
+    self.0.sndbatch_bytes_physical = bytes + count * 9;
+    self
+  }
+  pub fn use_cork(mut self, v: bool) -> Self {
+    self.0.use_cork = v;
+    self
+  }
+  #[cfg(feature = "plain")]
+  pub fn plain(mut self, username: Option<&str>, password: Option<&str>) -> Self {
+    self.0.security_enabled = true;
+    self.0.use_plain = true;
+    self.0.plain_username_for_engine = username.map(|s| s.to_string());
+    self.0.plain_password_for_engine = password.map(|s| s.to_string());
+    self
+  }
+  #[cfg(feature = "curve")]
+  pub fn curve(mut self, local_sk: [u8; 32], remote_pk: Option<[u8; 32]>) -> Self {
+    self.0.security_enabled = true;
+    self.0.use_curve = true;
+    self.0.curve_local_secret_key = Some(local_sk);
+    self.0.curve_remote_public_key = remote_pk;
+    self
+  }
+  #[cfg(feature = "noise_xx")]
+  pub fn noise_xx(mut self, local_sk: [u8; 32], remote_pk: Option<[u8; 32]>) -> Self {
+    self.0.security_enabled = true;
+    self.0.use_noise_xx = true;
+    self.0.noise_xx_local_sk_bytes_for_engine = Some(local_sk);
+    self.0.noise_xx_remote_pk_bytes_for_engine = remote_pk;
+    self
+  }
+  pub fn engine(&self, is_server: bool) -> ZmtpEngine {
+    ZmtpEngine::new(is_server, Arc::new(self.0.clone()))
+  }
+}
+
+/// Engine config exactly as a real socket would derive it from its options
+/// (`ZmtpEngineConfig::from(&SocketOptions)` after applying the given raw options).
+pub fn engine_cfg_from_options(socket_type_name: &str, opts: &[(i32, Vec<u8>)]) -> Result<EngineCfg, ZmqError> {
+  let mut so = crate::socket::options::SocketOptions::default();
+  so.socket_type_name = socket_type_name.to_string();
+  for (id, val) in opts {
+    crate::socket::options::apply_core_option_value(&mut so, *id, val)?;
+  }
+  Ok(EngineCfg(ZmtpEngineConfig::from(&so)))
+}
+
+/// (secret, public) CURVE keypair derived from 32 caller-supplied bytes.
+#[cfg(feature = "curve")]
+pub fn curve_keypair_from(secret: [u8; 32]) -> ([u8; 32], [u8; 32]) {
+  use dryoc::keypair::StackKeyPair;
+  use dryoc::types::Bytes as _;
+  let kp = StackKeyPair::from_secret_key(secret.into());
+  let mut pk = [0u8; 32];
+  pk.copy_from_slice(kp.public_key.as_slice());
+  (secret, pk)
+}
+
+/// (secret, public) X25519 keypair for NOISE_XX derived from 32 caller-supplied bytes.
+#[cfg(feature = "noise_xx")]
+pub fn noise_keypair_from(secret: [u8; 32]) -> ([u8; 32], [u8; 32]) {
+  let sk = x25519_dalek::StaticSecret::from(secret);
+  let pk = x25519_dalek::PublicKey::from(&sk);
+  (sk.to_bytes(), *pk.as_bytes())
+}
+
+// ---------------------------------------------------------------------------------------------
+// Framers / encoders
+// ---------------------------------------------------------------------------------------------
+
+pub struct Framer(Box<dyn ISecureFramer>);
+
+impl Framer {
+  pub fn null(max_msg_size: i64, sndbatch_count: usize, sndbatch_bytes_physical: usize) -> Self {
+    Framer(Box::new(NullFramer::new(max_msg_size, sndbatch_count, sndbatch_bytes_physical)))
+  }
+  pub fn try_read_msg(&mut self, buf: &mut BytesMut) -> Result<Option<Msg>, ZmqError> {
+    self.0.try_read_msg(buf)
+  }
+  pub fn write_msg_multipart(&mut self, msgs: FrameBatch) -> Result<Bytes, ZmqError> {
+    self.0.write_msg_multipart(msgs)
+  }
+  pub fn write_msg_batch(&mut self, batch: &[FrameBatch]) -> Result<Bytes, ZmqError> {
+    self.0.write_msg_batch(batch)
+  }
+  pub fn write_msg_split(&mut self, msg: Msg) -> Result<(Bytes, Option<Bytes>), ZmqError> {
+    self.0.write_msg_split(msg)
+  }
+  pub fn frame_vectored(&mut self, batch: &[FrameBatch]) -> Result<Vec<Bytes>, ZmqError> {
+    self.0.frame_vectored(batch)
+  }
+  pub fn try_read_msgs_from_bytes(&mut self, data: Bytes, acc: &mut BytesMut) -> Result<Vec<Msg>, ZmqError> {
+    self.0.try_read_msgs_from_bytes(data, acc)
+  }
+}
+
+pub struct FrameEncoder(ZmtpFrameEncoder);
+
+impl FrameEncoder {
+  pub fn new(header_cap: usize, coalesce_cap: usize) -> Self {
+    FrameEncoder(ZmtpFrameEncoder::new(header_cap, coalesce_cap))
+  }
+  pub fn frame_contiguous(&mut self, batch: &[FrameBatch]) -> Result<Bytes, ZmqError> {
+    self.0.frame_contiguous(batch)
+  }
+  pub fn frame_vectored(&mut self, batch: &[FrameBatch]) -> Result<Vec<Bytes>, ZmqError> {
+    self.0.frame_vectored(batch)
+  }
+}
+
+// ---------------------------------------------------------------------------------------------
+// ReadyPipeQueue
+// ---------------------------------------------------------------------------------------------
+
+pub struct Rpq<T: Send + 'static>(ReadyPipeQueue<T>);
+pub struct RpqSender<T: Send + 'static>(ReadyPipeSender<T>);
+
+/// Snapshot of one pipe slot, taken without synchronisation (meaningful at quiescent points).
+#[derive(Debug, Clone, PartialEq, Eq)]
+pub struct SlotSnapshot {
+  pub pipe_id: usize,
+  pub channel_len: usize,
+  pub queued_count: usize,
+  pub reserved_count: usize,
+}
+
+impl<T: Send + 'static> Rpq<T> {
+  pub fn new(ready_capacity: usize) -> Self {
+    Rpq(ReadyPipeQueue::new(ready_capacity))
+  }
+  pub fn register_pipe(&self, pipe_id: usize, capacity: usize, drain_delta: usize) -> RpqSender<T> {
+    RpqSender(self.0.register_pipe(pipe_id, capacity, drain_delta))
+  }
+  pub fn deregister_pipe(&self, pipe_id: usize) {
+    self.0.deregister_pipe(pipe_id)
+  }
+  pub async fn pop(&self) -> Result<(usize, T), ZmqError> {
+    self.0.pop().await
+  }
+  pub fn try_pop(&self) -> Option<(usize, T)> {
+    self.0.try_pop()
+  }
+  pub fn close(&self) {
+    self.0.close()
+  }
+  /// Number of entries currently in the ready list.
+  pub fn ready_len(&self) -> usize {
+    self.0.ready_rx.len()
+  }
+  pub fn slots(&self) -> Vec<SlotSnapshot> {
+    self
+      .0
+      .pipes
+      .read()
+      .values()
+      .map(|s| SlotSnapshot {
+        pipe_id: s.pipe_id,
+        channel_len: s.rx.len(),
+        queued_count: s.queued_count.load(Ordering::SeqCst),
+        reserved_count: s.reserved_count.load(Ordering::SeqCst),
+      })
+      .collect()
+  }
+}
+
+impl<T: Send + 'static> RpqSender<T> {
+  pub async fn send(&self, item: T) -> Result<(), ZmqError> {
+    self.0.send(item).await
+  }
+  /// Ok, or Err(Some(item)) when full, Err(None)-like closed is mapped to `Closed`.
+  pub fn try_send(&self, item: T) -> Result<(), RpqTrySendError<T>> {
+    match self.0.try_send(item) {
+      Ok(()) => Ok(()),
+      Err(fibre::TrySendError::Full(t)) => Err(RpqTrySendError::Full(t)),
+      Err(fibre::TrySendError::Closed(t)) => Err(RpqTrySendError::Closed(t)),
+      Err(fibre::TrySendError::Sent(t)) => Err(RpqTrySendError::Closed(t)),
+    }
+  }
+  pub fn try_send_batch(&self, items: &mut VecDeque<T>) -> usize {
+    self.0.try_send_batch(items, |_| 1)
+  }
+  pub fn queued_count(&self) -> usize {
+    self.0.queued_count()
+  }
+  pub fn reserved_count(&self) -> usize {
+    self.0.reserved_count()
+  }
+  pub fn len(&self) -> usize {
+    self.0.len()
+  }
+}
+
+pub enum RpqTrySendError<T> {
+  Full(T),
+  Closed(T),
+}
+
+// ---------------------------------------------------------------------------------------------
+// LoadBalancer / OutgoingMessageOrchestrator with scripted connections
+// ---------------------------------------------------------------------------------------------
+
+/// What the harness implements to play a peer connection.
+pub trait ScriptedConn: Send + Sync + 'static {
+  /// Non-blocking attempt. Return Err(batch) to signal "full".
+  fn try_send(&self, msgs: FrameBatch) -> Result<(), FrameBatch>;
+  /// Blocking send (the slow path). Return Err(Some(batch)) for "timed out / full",
+  /// Err(None) for "connection closed".
+  fn send<'a>(
+    &'a self,
+    msgs: FrameBatch,
+  ) -> std::pin::Pin<Box<dyn std::future::Future<Output = Result<(), Option<FrameBatch>>> + Send + 'a>>;
+}
+
+struct ScriptedAdapter(Arc<dyn ScriptedConn>);
+
+impl std::fmt::Debug for ScriptedAdapter {
+  fn fmt(&self, f: &mut std::fmt::Formatter<'_>) -> std::fmt::Result {
+    f.write_str("ScriptedAdapter")
+  }
+}
+
+#[async_trait::async_trait]
+impl ISocketConnection for ScriptedAdapter {
+  async fn send_multipart(&self, msgs: FrameBatch) -> Result<(), ZmqError> {
+    match self.0.send(msgs).await {
+      Ok(()) => Ok(()),
+      Err(Some(_)) => Err(ZmqError::ResourceLimitReached),
+      Err(None) => Err(ZmqError::ConnectionClosed),
+    }
+  }
+  async fn send_multipart_owned(&self, msgs: FrameBatch) -> Result<(), (FrameBatch, ZmqError)> {
+    match self.0.send(msgs).await {
+      Ok(()) => Ok(()),
+      Err(Some(b)) => Err((b, ZmqError::ResourceLimitReached)),
+      Err(None) => Err((FrameBatch::new(), ZmqError::ConnectionClosed)),
+    }
+  }
+  fn try_send_multipart_owned_sync(&self, msgs: FrameBatch) -> Result<(), (FrameBatch, ZmqError)> {
+    self.0.try_send(msgs).map_err(|b| (b, ZmqError::ResourceLimitReached))
+  }
+  async fn close_connection(&self) -> Result<(), ZmqError> {
+    Ok(())
+  }
+  fn as_any(&self) -> &dyn std::any::Any {
+    self
+  }
+}
+
+pub struct Balancer(LoadBalancer);
+
+impl Balancer {
+  pub fn new() -> Self {
+    Balancer(LoadBalancer::new())
+  }
+  pub fn add_connection(&self, uri: &str, conn: Arc<dyn ScriptedConn>) {
+    self.0.add_connection(uri.to_string(), Arc::new(ScriptedAdapter(conn)))
+  }
+  pub fn remove_connection(&self, uri: &str) {
+    self.0.remove_connection(uri)
+  }
+  /// URI of the peer the balancer hands out next (advances the cursor, like the real callers).
+  pub fn get_next_uri(&self) -> Option<String> {
+    self.0.get_next_connection().map(|p| p.uri.clone())
+  }
+  pub async fn wait_for_connection(&self) -> Result<(), ZmqError> {
+    self.0.wait_for_connection().await
+  }
+  pub fn connection_count(&self) -> usize {
+    self.0.connection_count()
+  }
+  pub fn deactivate(&self) {
+    self.0.deactivate()
+  }
+}
+
+pub struct Orchestrator(OutgoingMessageOrchestrator);
+
+impl Orchestrator {
+  pub fn new() -> Self {
+    Orchestrator(OutgoingMessageOrchestrator::new())
+  }
+  pub fn add_connection(&self, uri: &str, conn: Arc<dyn ScriptedConn>) {
+    self.0.add_connection(uri.to_string(), Arc::new(ScriptedAdapter(conn)))
+  }
+  pub fn remove_connection(&self, uri: &str) {
+    self.0.remove_connection(uri)
+  }
+  pub fn deactivate(&self) {
+    self.0.deactivate()
+  }
+  pub fn try_route_sync(&self, msgs: FrameBatch) -> Result<(), (FrameBatch, ZmqError)> {
+    self.0.try_route_sync(msgs)
+  }
+  pub async fn route_message(&self, msgs: FrameBatch, wait_for_peer: bool) -> Result<(), (FrameBatch, ZmqError)> {
+    self.0.route_message(msgs, wait_for_peer).await
+  }
+  pub async fn wait_for_connection(&self) -> Result<(), ZmqError> {
+    self.0.wait_for_connection().await
+  }
+}
+
+// ---------------------------------------------------------------------------------------------
+// SubscriptionTrie, EgressBuffer, ReconnectState, WaitGroup
+// ---------------------------------------------------------------------------------------------
+
+#[derive(Default)]
+pub struct Trie(SubscriptionTrie);
+
+impl Trie {
+  pub fn new() -> Self {
+    Trie(SubscriptionTrie::new())
+  }
+  pub fn subscribe(&self, t: &[u8]) {
+    self.0.subscribe(t)
+  }
+  pub fn unsubscribe(&self, t: &[u8]) -> bool {
+    self.0.unsubscribe(t)
+  }
+  pub fn matches(&self, t: &[u8]) -> bool {
+    self.0.matches(t)
+  }
+  pub fn get_all_topics(&self) -> Vec<Vec<u8>> {
+    self.0.get_all_topics()
+  }
+}
+
+pub struct Egress(crate::sessionx::egress_buffer::EgressBuffer);
+
+impl Egress {
+  pub fn new() -> Self {
+    Egress(crate::sessionx::egress_buffer::EgressBuffer::new())
+  }
+  pub fn push(&mut self, data: Bytes, msg_count: usize) {
+    self.0.push(data, msg_count)
+  }
+  pub fn push_priority(&mut self, data: Bytes) {
+    self.0.push_priority(data)
+  }
+  pub fn current_slice(&self) -> Option<&[u8]> {
+    self.0.current_slice()
+  }
+  /// Concatenation of what `fill_slices` exposes for up to `max_slices` slices.
+  pub fn peek_slices(&self, max_slices: usize) -> Vec<Vec<u8>> {
+    let mut v: Vec<std::io::IoSlice<'_>> = (0..max_slices).map(|_| std::io::IoSlice::new(&[])).collect();
+    let n = self.0.fill_slices(&mut v);
+    v[..n].iter().map(|s| s.to_vec()).collect()
+  }
+  pub fn advance(&mut self, n: usize) -> usize {
+    self.0.advance(n)
+  }
+  pub fn pending_messages(&self) -> usize {
+    self.0.pending_messages()
+  }
+  pub fn total_pending_bytes(&self) -> usize {
+    self.0.total_pending_bytes()
+  }
+  pub fn is_empty(&self) -> bool {
+    self.0.is_empty()
+  }
+}
+
+#[derive(Default)]
+pub struct Reconnect(crate::socket::core::state::ReconnectState);
+
+impl Reconnect {
+  pub fn new() -> Self {
+    Self::default()
+  }
+  pub fn on_connection_failure(&mut self, base: Duration, max: Duration) -> Duration {
+    self.0.on_connection_failure(base, max)
+  }
+  pub fn on_connection_success(&mut self) {
+    self.0.on_connection_success()
+  }
+  pub fn attempts(&self) -> u32 {
+    self.0.current_attempts
+  }
+  pub fn is_due(&self, now: std::time::Instant) -> bool {
+    self.0.is_due(now)
+  }
+}
+
+#[derive(Clone)]
+pub struct Wg(crate::runtime::WaitGroup);
+
+impl Wg {
+  pub fn new() -> Self {
+    Wg(crate::runtime::WaitGroup::new())
+  }
+  pub fn add(&self, n: usize) {
+    self.0.add(n)
+  }
+  pub fn done(&self) {
+    self.0.done()
+  }
+  pub async fn wait(&self) {
+    self.0.wait().await
+  }
+  pub fn count(&self) -> usize {
+    self.0.get_count()
+  }
+}
+
+// ---------------------------------------------------------------------------------------------
+// Context gauges
+// ---------------------------------------------------------------------------------------------
+
+/// Number of actors the context's wait group still counts as alive.
+pub fn live_actors(ctx: &crate::Context) -> usize {
+  ctx.inner().verif_wait_group_count()
+}
+
+/// Names currently registered in the context's inproc registry.
+#[cfg(feature = "inproc")]
+pub fn inproc_names(ctx: &crate::Context) -> Vec<String> {
+  ctx.inner().inproc_registry.read().keys().cloned().collect()
+}
+
+/// Sockets still registered with the context.
+pub fn registered_sockets(ctx: &crate::Context) -> usize {
+  ctx.inner().sockets.read().len()
+}
